@@ -957,7 +957,7 @@ def ev_integral_to_form(t, cx):
 
 EVENTS = [
     # --- compute_form_data option sets
-    Event("cfd_default", (F,), _cfd(), core=True),
+    Event("cfd_default", (F,), _cfd()),
     Event("cfd_pull", (F,), _cfd(do_apply_function_pullbacks=True)),
     Event("cfd_scale", (F,), _cfd(do_apply_function_pullbacks=True, do_apply_integral_scaling=True)),
     Event("cfd_geom", (F,), _cfd(do_apply_geometry_lowering=True, preserve_geometry_types=(Jacobian,))),
@@ -1006,7 +1006,7 @@ EVENTS = [
     # --- single algorithms
     Event("expand_derivatives", FEIB, ev_expand_derivatives, core=True),
     Event("expand_indices", FEI, ev_expand_indices),
-    Event("apply_algebra_lowering", FEIB, ev_algebra_lowering, core=True),
+    Event("apply_algebra_lowering", FEIB, ev_algebra_lowering),
     Event("apply_derivatives", FEIB, ev_apply_derivatives),
     Event("apply_coordinate_derivatives", FEI, ev_coordinate_derivatives),
     Event("apply_function_pullbacks", FEI, ev_function_pullbacks),
@@ -1035,7 +1035,7 @@ EVENTS = [
     Event("expr_accessors", (E_, I_), ev_expr_accessors, core=True),
     Event("validate", (F,), ev_validate),
     Event("check_integrand", (E_, I_), ev_check_integrand),
-    Event("sorted_expr", FEI, ev_sorted_expr, core=True),
+    Event("sorted_expr", FEI, ev_sorted_expr),
     Event("str_repr", FEIB, ev_str_repr),
     Event("pickle", FEIB, ev_pickle),
     Event("eq_clone", FEI, ev_eq_clone, core=True),
@@ -1043,9 +1043,9 @@ EVENTS = [
     # --- form operators
     Event("lhs", (F,), ev_lhs),
     Event("rhs", (F,), ev_rhs),
-    Event("system", (F,), ev_system, core=True),
+    Event("system", (F,), ev_system),
     Event("functional", (F,), ev_functional),
-    Event("action", (F,), ev_action, req=("arg",), core=True),
+    Event("action", (F,), ev_action, req=("arg",)),
     Event("adjoint", (F,), ev_adjoint, req=("arg",)),
     Event("energy_norm", (F,), ev_energy_norm, req=("arg",)),
     Event("derivative", (F, E_, B_), ev_derivative, req=("coef",), core=True),
@@ -1061,7 +1061,7 @@ EVENTS = [
     Event("integral_reconstruct", FI, ev_integral_reconstruct, req=("nonempty",), core=True),
     Event("integral_to_form", (I_,), ev_integral_to_form, core=True),
     # --- base forms
-    Event("action_identity", (F, B_), ev_action_identity, core=True),
+    Event("action_identity", (B_,), ev_action_identity, core=True),
     Event("bf_action", (B_,), ev_bf_action, core=True),
     Event("bf_adjoint", (B_,), ev_bf_adjoint, core=True),
     Event("bf_arith", (B_,), ev_bf_arith, core=True),
